@@ -94,15 +94,19 @@ class Report:
             print(f"ADVISORY: property={self.prop} {a['rule']} {a['construct']}: {a['message']} [{a['loc']}]")
         replay_dir = VERIF / "evidence" / "replay"
         rc = 0
+        quiet = bool(os.environ.get("VERIF_NO_EVIDENCE"))
         if new:
-            replay_dir.mkdir(parents=True, exist_ok=True)
+            if not quiet:
+                replay_dir.mkdir(parents=True, exist_ok=True)
             for i, v in enumerate(new):
                 path = replay_dir / f"{self.prop}-{i}.json"
-                path.write_text(json.dumps({"property": self.prop, **v}, indent=1, default=str) + "\n")
+                if not quiet:
+                    path.write_text(json.dumps({"property": self.prop, **v}, indent=1, default=str) + "\n")
                 print(f"  {v['loc']}: {self.prop}.{v['rule']} {v['construct']}: {v['message']}")
                 print(f"VIOLATION property={self.prop} replay={path}")
             rc = 1
-        self._write_evidence(len(new), len(matched))
+        if not quiet:
+            self._write_evidence(len(new), len(matched))
         n_ob = len(self.obligations)
         n_ok = sum(1 for o in self.obligations if o["ok"])
         print(
